@@ -84,6 +84,9 @@ pub fn run(args: &[String]) -> ! {
                         if want_allowed {
                             allowed_n += 1;
                         }
+                        if evals % 77_773 == 1 {
+                            ctx.sample(json!({"required_groups": required, "vlan_mappings": maps, "default_vlan": default_vlan, "user_groups_in_order": l.iter().map(|g| GROUPS[*g].0).collect::<Vec<_>>(), "admitted": got_allowed, "vlan": got_vlan}));
+                        }
                         let describe = || format!("required groups {required:?}, VLAN mappings {:?}{}, default VLAN {default_vlan}, user groups in this order {:?}", (0..3).filter(|g| vlanmask & (1 << g) != 0).map(|g| (GROUPS[g].0, VLANS[g])).collect::<Vec<_>>(), if reversed { " (configured in reverse order)" } else { "" }, l.iter().map(|g| GROUPS[*g].0).collect::<Vec<_>>());
                         let case = json!({"req": reqmask, "vlans": vlanmask, "default": default_vlan, "reversed": reversed, "groups": l});
                         if got_allowed != want_allowed {
@@ -101,7 +104,6 @@ pub fn run(args: &[String]) -> ! {
     }
     ctx.set("evaluations", evals);
     ctx.set("distinct_nontrivial", allowed_n);
-    ctx.set("cases_in_which_the_user_is_admitted", allowed_n);
     ctx.set("mismatches", nbad);
     ctx.set("rule", "32 required-group lists (subsets of: ga by spn, ga by uuid, gb by spn, gc by uuid, the bare name `ga`) x 8 VLAN mapping sets over ga, gb, gc (configured in both orders) x default VLAN {1, 0} x all 326 ordered lists of user groups drawn from ga, gb, gc, an unrelated group and a group whose spn begins with ga's spn");
     ctx.set("exhaustive", true);
